@@ -420,4 +420,105 @@ example : resiFormOK [.num 5, .word "TOL", .num 7] = true ∧
 /-- outside the table of forms the decoder is order dependent: a non-positive number is overwritten by the "alias" -/
 example : resiDecode [.num (-3), .word "X", .num 7] ≠ resiSpec [.num (-3), .word "X", .num 7] := by decide +kernel
 
+/-! ### include files -/
+
+theorem incNames_append (a b : List Item) : incNames (a ++ b) = incNames a ++ incNames b := by
+  induction a with
+  | nil => rfl
+  | cons x t ih => cases x <;> simp [incNames, ih]
+
+theorem expands_append (fs : FS) {xs o1 ys o2 : List Item} (h1 : Expands fs xs o1) (h2 : Expands fs ys o2) :
+    Expands fs (xs ++ ys) (o1 ++ o2) := by
+  induction h1 with
+  | nil => simpa using h2
+  | line t _ ih => exact Expands.line t ih
+  | inc n hc _ _ ih2 =>
+    rw [List.cons_append, List.cons_append, List.append_assoc]
+    exact Expands.inc n hc ih2
+
+theorem include_spliced (fs : FS) (fuel : Nat) : ∀ (seen : List String) (items out : List Item),
+    Expands fs items out → (seen ++ incNames out).Nodup → out.length ≤ fuel →
+    splice fs fuel seen items = some out := by
+  induction fuel with
+  | zero =>
+    intro seen items out he _ hl
+    cases he with
+    | nil => simp [splice]
+    | line t _ => simp at hl
+    | inc n _ _ => simp at hl
+  | succ fuel ih =>
+    intro seen items out he hnd hl
+    cases he with
+    | nil => simp [splice]
+    | line t hr =>
+      simp only [splice]
+      rw [ih seen _ _ hr (by simpa [incNames] using hnd) (by simp at hl; omega)]
+      rfl
+    | inc n hc hr =>
+      rename_i rest o1 o2
+      simp only [incNames, incNames_append] at hnd
+      have hns : n ∉ seen := by
+        intro hin
+        have := (List.nodup_append.mp hnd).2.2 n hin n (by simp)
+        exact this rfl
+      have hnd' : ((n :: seen) ++ (incNames o1 ++ incNames o2)).Nodup := by
+        have hp : (seen ++ n :: (incNames o1 ++ incNames o2)).Perm ((n :: seen) ++ (incNames o1 ++ incNames o2)) := by
+          simp [List.perm_middle]
+        exact hp.nodup_iff.mp hnd
+      simp only [splice, hns, if_false]
+      rw [ih (n :: seen) _ _ (expands_append fs hc hr) (by simpa [incNames_append] using hnd') (by simp at hl ⊢; omega)]
+      rfl
+
+theorem spliceSpec_expands (fs : FS) (d : Nat) : ∀ items : List Item, deepOK fs d items = true →
+    Expands fs items (spliceSpec fs d items) := by
+  induction d with
+  | zero =>
+    intro items
+    induction items with
+    | nil => intro _; simp only [spliceSpec]; exact Expands.nil
+    | cons x rest ih =>
+      intro h
+      cases x with
+      | line t =>
+        simp only [deepOK] at h
+        simp only [spliceSpec]
+        exact Expands.line t (ih h)
+      | inc n =>
+        simp only [deepOK, Bool.and_eq_true, List.isEmpty_iff] at h
+        simp only [spliceSpec]
+        have hc : Expands fs ((fsGet fs n).getD []) [] := by rw [h.1]; exact Expands.nil
+        simpa using Expands.inc n hc (ih h.2)
+  | succ d ihd =>
+    intro items
+    induction items with
+    | nil => intro _; simp only [spliceSpec]; exact Expands.nil
+    | cons x rest ih =>
+      intro h
+      cases x with
+      | line t =>
+        simp only [deepOK] at h
+        simp only [spliceSpec]
+        exact Expands.line t (ih h)
+      | inc n =>
+        simp only [deepOK, Bool.and_eq_true] at h
+        simp only [spliceSpec]
+        exact Expands.inc n (ihd _ h.1) (ih h.2)
+
+
+/-- **include_spliced_exec** — the executable specification (`spliceSpec`, nesting bound `d`): whenever the bound
+    suffices and no file is included twice (Python raises ValueError on the second `+name`, see below), the
+    parser's line list after `_find_included_files` is the specification's -/
+theorem include_spliced_exec (fs : FS) (d fuel : Nat) (items : List Item) (hd : deepOK fs d items = true)
+    (hnd : (incNames (spliceSpec fs d items)).Nodup) (hf : (spliceSpec fs d items).length ≤ fuel) :
+    splice fs fuel [] items = some (spliceSpec fs d items) :=
+  include_spliced fs fuel [] items _ (spliceSpec_expands fs d items hd) (by simpa using hnd) hf
+
+def demoFS : FS := [("a.ins", [.line 10, .inc "b.ins", .line 11]), ("b.ins", [.line 20])]
+
+example : splice demoFS 10 [] [.line 0, .inc "a.ins", .line 1] =
+    some [.line 0, .inc "a.ins", .line 10, .inc "b.ins", .line 20, .line 11, .line 1] := by decide +kernel
+example : deepOK demoFS 2 [.line 0, .inc "a.ins", .line 1] = true := by simp [deepOK, demoFS, fsGet]
+/-- the hypothesis "no file twice" is needed: the code refuses the second include of the same file -/
+example : splice demoFS 10 [] [.inc "b.ins", .inc "b.ins"] = none := by decide +kernel
+
 end Shelx.C03
